@@ -23,7 +23,13 @@ m=json.load(open('$V/seeded/$n/meta.json'))
 det=m.get('detection',{})
 ids=[k for k,v in det.items() if v.get('result')=='detected']
 print(' '.join(ids) if ids else m.get('breaks_property',''))")
-	"$V/tools/try_mutant.sh" "$V/seeded/$n/patch.diff" $ids 2>&1 | grep -E '^C[0-9]+: ' | sed "s/^/$n /" | cut -c1-200
+	out=$("$V/tools/try_mutant.sh" "$V/seeded/$n/patch.diff" $ids 2>&1)
+	if echo "$out" | grep -q 'patch does not apply'; then
+		# (never silent: a change that later repairs have overtaken textually is said so)
+		echo "$n -: not applicable to the tree as it stands (the patch conflicts with a later repair; what is recorded for it was obtained on the tree it was written for)"
+		return
+	fi
+	echo "$out" | grep -E '^C[0-9]+: ' | sed "s/^/$n /" | cut -c1-200
 }
 export -f one; export V
 printf '%s\n' "${names[@]}" | xargs -P "$J" -I{} bash -c 'one {}' | tee "$V/seeded/.last-sensitivity.txt"
